@@ -258,7 +258,11 @@ theorem fastmatch_move (R : Lin) (h : R.Orthogonal) (t : V2) (peaks : List Peak)
     · simp only [hen, if_false, Bool.false_eq_true]
       rw [weightedOptimize_move]
       cases weightedOptimize peaks m1 idx1 with
-      | none => rfl
+      | none =>
+        simp only [Option.map_none]
+        by_cases h0 : idx1.length = 0
+        · simp only [h0, if_true]; rfl
+        · simp only [h0, if_false]; rfl
       | some zab =>
         obtain ⟨z1, a1, b1⟩ := zab
         simp only [Option.map_some, matchAll_move R h]
